@@ -4,36 +4,60 @@
    client data segment carries FIN/RST before both heads are reported. *)
 From Coq Require Import List NArith Bool Lia.
 From Coq Require Import Strings.Byte.
-From HN Require Import Base.Bytes Base.Cache Base.Tcp Model.HttpFlow Spec.StreamSpec Proofs.CacheProofs.
+From HN Require Import Base.Bytes Base.Cache Base.Tcp Model.HttpFlow Spec.StreamSpec Proofs.CacheProofs Proofs.Serial32.
 Import ListNotations.
 Open Scope N_scope.
 
 (* ------------------------------------------------------------------ sorting *)
-Fixpoint ascending (l : list tcpdata) : Prop :=
+Fixpoint ascending_k (k : tcpdata -> N) (l : list tcpdata) : Prop :=
   match l with
   | [] => True
-  | x :: r => (forall y, In y r -> td_seq x <= td_seq y) /\ ascending r
+  | x :: r => (forall y, In y r -> k x <= k y) /\ ascending_k k r
   end.
+Notation ascending := (ascending_k td_seq).
 
-Lemma fold_insert_ascending l : forall acc,
-  (forall a y, In a acc -> In y l -> td_seq a <= td_seq y) -> ascending l ->
-  fold_left (fun acc x => insert_rev x acc) l acc = rev l ++ acc.
+Lemma fold_insert_ascending k l : forall acc,
+  (forall a y, In a acc -> In y l -> k a <= k y) -> ascending_k k l ->
+  fold_left (fun acc x => insert_rev k x acc) l acc = rev l ++ acc.
 Proof.
   induction l as [|x l IH]; intros acc Hacc Hasc; cbn; [reflexivity|].
   destruct Hasc as [Hx Hl].
-  assert (E : insert_rev x acc = x :: acc).
+  assert (E : insert_rev k x acc = x :: acc).
   { destruct acc as [|y r]; [reflexivity|]. cbn.
-    destruct (td_seq x <? td_seq y) eqn:E; [|reflexivity].
+    destruct (k x <? k y) eqn:E; [|reflexivity].
     apply N.ltb_lt in E. specialize (Hacc y x (or_introl eq_refl) (or_introl eq_refl)). lia. }
   rewrite E, IH; [now rewrite <- app_assoc | | exact Hl].
   intros a y [<-|Ha] Hy; [now apply Hx | apply Hacc; [exact Ha | now right]].
 Qed.
 
-Lemma sort_td_ascending l : ascending l -> sort_td l = l.
+(* a list that is already ascending in the key the sort uses is left as it is *)
+Lemma sort_td_ascending l : ascending_k (sort_key l) l -> sort_td l = l.
 Proof.
   intros H. unfold sort_td. rewrite frev_rev. rewrite fold_insert_ascending; auto.
   - now rewrite app_nil_r, rev_involutive.
   - intros a y [].
+Qed.
+
+(* all sequence numbers within 2^31 above the reference point, no wrap: the sort key orders like the raw value *)
+Definition near (isn : N) (l : list tcpdata) : Prop :=
+  Forall (fun d => isn <= td_seq d /\ td_seq d < isn + two31 /\ td_seq d < two32) l.
+
+Lemma near_sort_key isn l x y :
+  isn < two32 -> near isn l -> In x l -> In y l -> td_seq x <= td_seq y -> sort_key l x <= sort_key l y.
+Proof.
+  intros Hi Hn Hx Hy Hle. unfold near in Hn. rewrite Forall_forall in Hn.
+  destruct l as [|b l']; [destruct Hx|]. unfold sort_key. cbn [sort_base].
+  destruct (Hn b (or_introl eq_refl)) as (B1 & B2 & B3), (Hn x Hx) as (X1 & X2 & X3), (Hn y Hy) as (Y1 & Y2 & Y3).
+  apply (skey32_le isn); auto; rewrite ?off32_plain by assumption; lia.
+Qed.
+
+Lemma ascending_near isn l : isn < two32 -> near isn l -> ascending l -> ascending_k (sort_key l) l.
+Proof.
+  intros Hi Hn. assert (G : forall l', (forall x, In x l' -> In x l) -> ascending l' -> ascending_k (sort_key l) l').
+  { induction l' as [|x l' IH]; intros Hsub Ha; [exact I|]. destruct Ha as [Hx Hl]. split.
+    - intros y Hy. apply (near_sort_key isn); auto; [apply Hsub; now left | apply Hsub; now right].
+    - apply IH; auto. intros z Hz. apply Hsub. now right. }
+  apply G. auto.
 Qed.
 
 (* ------------------------------------------------------------------ chains of in-order segments *)
@@ -110,7 +134,8 @@ Proof. intros H. change 0 with (N.of_nat 0). rewrite (prefix_map_is m B H). cbn.
 
 (* ------------------------------------------------------------------ one direction, one in-order segment *)
 Definition drel (data0 : list tcpdata) (d : sdir) (isn : N) (tds : list tcpdata) : Prop :=
-  exists ps, tds = data0 ++ chain_tds (isn + 1) ps /\ map_is (d_map d) (concat ps) /\ d_recv d = length (concat ps).
+  exists ps, tds = data0 ++ chain_tds (isn + 1) ps /\ map_is (d_map d) (concat ps) /\ d_recv d = length (concat ps) /\
+             isn < two32 /\ near isn tds.
 Definition data0_ok (isn : N) (data0 : list tcpdata) : Prop := data0 = [] \/ data0 = [mkTd isn []].
 
 Lemma seq_offset_nowrap isn seq : isn < seq -> seq < two32 -> seq_offset isn seq = seq - isn - 1.
@@ -125,26 +150,29 @@ Proof. unfold seq_offset. apply N.mod_lt. unfold two32. lia. Qed.
 Lemma classify_dir_strict_inorder d isn seq pay B :
   d_done d = false -> map_is (d_map d) B -> d_recv d = length B -> pay <> [] -> seq < two32 ->
   classify_dir_strict d isn seq pay = (false, false, false) ->
-  seq = isn + 1 + len_N B /\ seq_offset isn seq = len_N B.
+  seq = isn + 1 + len_N B /\ seq_offset isn seq = len_N B /\ len_N B < two31 - 1.
 Proof.
   intros Hd Hm Hr Hp Hs. unfold classify_dir_strict, stream_prefix. rewrite Hd, Hr, (prefix_full _ _ Hm).
   intros E. injection E as E1 E2 E3.
+  apply orb_false_iff in E1. destruct E1 as [E1 E0]. apply N.leb_gt in E0.
   apply N.leb_gt in E1. apply N.ltb_ge in E2.
   destruct pay as [|b pay]; [congruence|]. cbn in E3. apply orb_false_iff in E3. destruct E3 as [E3 _].
   rewrite Hm in E3. destruct (nth_error B (N.to_nat (seq_offset isn seq))) eqn:E4; [discriminate|].
   apply nth_error_None in E4.
   assert (seq_offset isn seq = len_N B) as Hoff by (unfold len_N in *; lia).
-  split; [|exact Hoff].
+  split; [|split; [exact Hoff | rewrite <- Hoff; exact E0]].
   rewrite seq_offset_nowrap in Hoff by assumption. lia.
 Qed.
 
 Lemma full_data_chain data0 isn ps :
-  data0_ok isn data0 -> full_data (data0 ++ chain_tds (isn + 1) ps) = concat ps.
+  data0_ok isn data0 -> isn < two32 -> near isn (data0 ++ chain_tds (isn + 1) ps) ->
+  full_data (data0 ++ chain_tds (isn + 1) ps) = concat ps.
 Proof.
-  intros H0. unfold full_data. rewrite sort_td_ascending.
+  intros H0 Hi Hn. unfold full_data. rewrite sort_td_ascending.
   - rewrite map_app, concat_app, chain_data. destruct H0 as [-> | ->]; reflexivity.
-  - destruct H0 as [-> | ->]; cbn; [apply chain_ascending|]. split; [|apply chain_ascending].
-    intros y Hy. apply chain_lower in Hy. lia.
+  - apply (ascending_near isn); auto.
+    destruct H0 as [-> | ->]; cbn; [apply chain_ascending|]. split; [|apply chain_ascending].
+    intros y Hy. apply chain_lower in Hy. cbn. lia.
 Qed.
 
 Lemma any_not_all m off n : any_placed m off (S n) = false -> all_placed m off (S n) = false.
@@ -179,8 +207,10 @@ Lemma dir_advance data0 d isn tds seq pay :
   is_retrans tds (mkTd seq pay) = false /\
   all_placed (d_map d) (seq_offset isn seq) (length pay) = false.
 Proof.
-  intros H0 Hs Hp Hd (ps & Ht & Hm & Hr) Hc m n.
-  destruct (classify_dir_strict_inorder d isn seq pay (concat ps) Hd Hm Hr Hp Hs Hc) as [Hseq Hoff].
+  intros H0 Hs Hp Hd (ps & Ht & Hm & Hr & Hi & Hnear) Hc m n.
+  destruct (classify_dir_strict_inorder d isn seq pay (concat ps) Hd Hm Hr Hp Hs Hc) as (Hseq & Hoff & Hfar).
+  assert (Hnear' : near isn (tds ++ [mkTd seq pay])).
+  { apply Forall_app. split; [exact Hnear|]. constructor; [|constructor]. cbn. unfold two31 in *. lia. }
   assert (Ht' : tds ++ [mkTd seq pay] = data0 ++ chain_tds (isn + 1) (ps ++ [pay])).
   { rewrite Ht, chain_app, <- app_assoc, Hseq. reflexivity. }
   assert (Hm' : map_is m (concat (ps ++ [pay]))).
@@ -188,8 +218,8 @@ Proof.
   assert (Hn : n = length (concat (ps ++ [pay]))).
   { subst n. rewrite concat_app_single, app_length. lia. }
   split; [|split; [|split]].
-  - rewrite Ht', full_data_chain by exact H0. rewrite Hn. symmetry. now apply prefix_full.
-  - intros done. exists (ps ++ [pay]). cbn. auto.
+  - rewrite Ht'. rewrite full_data_chain; [| exact H0 | exact Hi | now rewrite <- Ht']. rewrite Hn. symmetry. now apply prefix_full.
+  - intros done. exists (ps ++ [pay]). cbn. auto 10.
   - rewrite Ht. now apply chain_no_retrans.
   - unfold classify_dir_strict in Hc. rewrite Hd in Hc. injection Hc as _ _ Hc.
     destruct pay as [|b0 pay]; [congruence|]. now apply any_not_all.
@@ -586,12 +616,12 @@ Section Sim.
   (* ---- the opening SYN of a new connection ---- *)
   Lemma sim_open st cs e :
     Inv st cs -> conn_lookup (e_conn e) cs = None ->
-    e_client e = true -> e_syn e = true -> e_pay e = [] ->
+    e_client e = true -> e_syn e = true -> e_pay e = [] -> e_seq e < two32 ->
     N.of_nat (S (length cs)) <= c_cap st ->
     let cs1 := mkConn (e_conn e) (dir_new (Some (e_seq e))) (dir_new None) :: cs in
     exists st1, stepM st (wire e) = (st1, ONone) /\ Inv st1 cs1 /\ c_cap st1 = c_cap st.
   Proof.
-    intros (K & Len & R) L Hc Hsyn Hpay Hcap cs1. set (id := e_conn e) in *.
+    intros (K & Len & R) L Hc Hsyn Hpay Hseq Hcap cs1. set (id := e_conn e) in *.
     pose proof (R id) as Rid. rewrite L in Rid.
     destruct (cache_get fkey_eqb st (ckey id)) as [f|] eqn:G; [contradiction|].
     rewrite (wire_client e Hc). fold id. unfold step. cbn [g_src g_dst g_sport g_dport g_syn].
@@ -611,6 +641,7 @@ Section Sim.
       + apply N.eqb_eq in Eid. subst id'. rewrite G. rewrite (keqb_refl fkey_eqb fkey_eqb_eq).
         cbn. unfold flow_rel, flow_init. cbn. rewrite Hpay. repeat split; auto; try discriminate.
         * intros _. exists (e_seq e). split; [reflexivity|]. exists []. cbn. repeat split; auto using map_is_empty.
+          constructor; [cbn; unfold two31; lia | constructor].
         * apply map_is_empty.
       + destruct (cache_get fkey_eqb st (ckey id')); [exact R|].
         rewrite (keqb_neq fkey_eqb fkey_eqb_eq); [exact R|].
@@ -620,12 +651,12 @@ Section Sim.
   (* ---- the server's SYN of a known connection ---- *)
   Lemma sim_synack st cs e c :
     Inv st cs -> conn_lookup (e_conn e) cs = Some c ->
-    e_client e = false -> e_pay e = [] -> d_isn (sc_s c) = None ->
+    e_client e = false -> e_pay e = [] -> d_isn (sc_s c) = None -> e_seq e < two32 ->
     let cs1 := conn_replace (mkConn (sc_id c) (sc_c c)
                  (mkDir (Some (e_seq e)) (d_map (sc_s c)) (d_recv (sc_s c)) (d_done (sc_s c)) (d_segs (sc_s c)))) cs in
     stepM st (wire e) = (st, ONone) /\ Inv st cs1.
   Proof.
-    intros HI L Hc Hpay Hn cs1. set (id := e_conn e) in *.
+    intros HI L Hc Hpay Hn Hseq cs1. set (id := e_conn e) in *.
     pose proof (lookup_id _ _ _ L) as Hid.
     pose proof HI as (K & Len & R). specialize (R id). rewrite L in R.
     rewrite (wire_server e Hc). fold id. unfold step. cbn [g_src g_dst g_sport g_dport g_syn].
@@ -638,7 +669,7 @@ Section Sim.
       rewrite G. cbn. unfold flow_rel. cbn [sc_c sc_s d_done d_isn d_map d_recv].
       repeat split; auto; try discriminate.
       intros Ds. specialize (Rs Ds). rewrite Hn in Rs. destruct Rs as (-> & Hm & Hr).
-      exists []. cbn. auto.
+      exists []. cbn. repeat split; auto. constructor.
     - destruct R as (_ & _ & X). contradiction.
   Qed.
 
@@ -658,7 +689,7 @@ Section Sim.
         destruct (d_isn (sc_s c)) eqn:Hn; [now inversion Hs|].
         destruct (e_pay e) eqn:Hpay; [|now inversion Hs].
         injection Hs as <- <-.
-        destruct (sim_synack st cs e c HI L Hc Hpay Hn) as [E I1].
+        destruct (sim_synack st cs e c HI L Hc Hpay Hn Hseq) as [E I1].
         exists st. auto.
       + destruct (e_pay e) as [|b r] eqn:Hpay.
         * injection Hs as <- <-. exists st. split; [exact (sim_no_payload st cs e HI Hsyn Hpay)|]. auto.
